@@ -1,6 +1,7 @@
 package fzf
 
 import (
+	"encoding/json"
 	"errors"
 	"io"
 	"net"
@@ -316,4 +317,63 @@ func zzH_C16_addr() {
 	zzv.Assert("valid-listen-address-accepted", err == nil)
 	zzv.Assert("listen-address-as-written", addr.host == host && addr.port == port)
 	zzv.Assert("only-loopback-names-are-local", addr.IsLocal() == (host == "localhost" || host == "127.0.0.1"))
+}
+
+func init() {
+	zzHarnesses["zzH_C16_status"] = zzH_C16_status
+}
+
+// In the engine encoding/json.Marshal (reflection) is replaced by a capture of the value; natively
+// the real encoder runs and the harness decodes its output again.
+var zzLastStatus *Status
+
+func zzMX_json_Marshal(v any) ([]byte, error) {
+	if st, ok := v.(*Status); ok {
+		zzLastStatus = st
+	}
+	return []byte("{}"), nil
+}
+
+// H16.status: the GET handler of the real terminal (dumpStatus) for every non-negative limit and
+// offset the request line can carry: never a crash, and the window of matches / selections asked for.
+func zzH_C16_status() {
+	n := zzv.Choose(0, 3)
+	items := zzItems(n)
+	t := &Terminal{merger: zzMergerOf(items), multi: 3, selected: make(map[int32]selectedItem)}
+	nsel := 0
+	for _, it := range items {
+		if zzv.Bool() {
+			t.selectItem(it)
+			nsel++
+		}
+	}
+	limit := zzv.Int()
+	offset := zzv.Int()
+	zzv.Assume(limit >= 0 && offset >= 0) // the request line admits digits only
+	zzLastStatus = nil
+	out := t.dumpStatus(getParams{limit: limit, offset: offset})
+	zzv.Reach("answered")
+	st := zzLastStatus
+	if st == nil {
+		st = &Status{}
+		if err := json.Unmarshal([]byte(out), st); err != nil {
+			zzv.Assert("opt:status-is-json", false)
+			return
+		}
+	}
+	want := func(total int) int {
+		if offset >= total {
+			return 0
+		}
+		k := total - offset
+		if limit < k {
+			k = limit
+		}
+		return k
+	}
+	zzv.Assert("status-window-of-matches", len(st.Matches) == want(n) && st.MatchCount == n)
+	zzv.Assert("status-window-of-selections", len(st.Selected) == want(nsel))
+	for i := range st.Matches {
+		zzv.Assert("status-matches-in-list-order", st.Matches[i].Index == int(items[i+offset].Index()))
+	}
 }
